@@ -350,6 +350,52 @@ def check_predictor(ctx, cfg, p, X, xq, st, info=None):
         except Exception as e:  # noqa
             bad("state-update|exception|%s" % type(e).__name__, "derivative after an in-place state update raises",
                 {"exception": "%s: %s" % (type(e).__name__, str(e)[:300])})
+    # ---- very many rows (more than any plausible internal block, not a multiple of a power of two), every predictor class: the
+    #      rows at the END of the batch belong to their own queries (once per class: the first configuration that reaches here)
+    if not isinstance(p, MultiOutputColumn) and ("many", True) in results and cname not in st.__dict__.setdefault("big_done", set()):
+        st.big_done.add(cname)
+        try:
+            kq = xq.shape[0]
+            nbig = 2500
+            idx = np.random.default_rng(4321).integers(0, kq, size=nbig)
+            g_big = meth("gradient", xq[idx], True)
+            st.evals += 1
+            for i in list(range(0, 6)) + list(range(1020, 1030)) + list(range(2040, 2056)) + list(range(nbig - 12, nbig)):
+                r = int(idx[i])
+                gr = results[("many", True)][0][r]
+                eg = float(np.abs(g_big[i] - gr).max())
+                st.ratio("row-agreement-2500", eg / refs[r]["round"][0], keyb)
+                if not eg <= refs[r]["round"][0]:
+                    bad("row-agreement|2500-rows", "row i of gradient evaluated among 2500 rows differs from the same row evaluated in a small batch",
+                        {"row": i, "rows": "x[default_rng(4321).integers(0, len(x), 2500)]", "x": xq[r].tolist(), "gradient_difference": eg,
+                         "allowed_error": refs[r]["round"][0]})
+                    break
+        except KeyError:
+            pass
+        except Exception as e:  # noqa
+            bad("row-agreement|2500-rows|%s" % type(e).__name__, "gradient raises on 2500 rows", {"exception": "%s: %s" % (type(e).__name__, str(e)[:300])})
+    # ---- history: multi_time with the states passed by keyword and jit=True, twice on the same predictor with different states:
+    #      the second answer is about the second states (agreement with jit=False, which is checked against finite differences above)
+    if is_time and not isinstance(p, MultiOutputColumn):
+        try:
+            mt = [0.5, 1.5]
+            xa, xb = xq[:, :-1], xq[::-1, :-1] + 0.0625
+            for nm in ("gradient", "hessian", "time_derivative"):
+                f_ = getattr(p, nm)
+                f_(x=xa, multi_time=mt, jit=True)
+                got = np.asarray(f_(x=xb, multi_time=mt, jit=True), dtype=float)
+                want = np.asarray(f_(x=np.array(xb, copy=True), multi_time=mt, jit=False), dtype=float)
+                st.evals += 3
+                scale = float(np.abs(want).max()) + 1.0
+                if got.shape != want.shape or not np.allclose(got, want, rtol=1e-6, atol=1e-8 * scale):
+                    bad("multi_time-keyword-x|" + nm, "%s(x=..., multi_time=..., jit=True) called a second time with other states does not answer for those states "
+                        "(differs from jit=False)" % nm,
+                        {"sequence": "p.%s(x=xa, multi_time=[0.5, 1.5], jit=True); p.%s(x=xb, multi_time=[0.5, 1.5], jit=True) vs jit=False" % (nm, nm),
+                         "xa": xa.tolist(), "xb": xb.tolist(), "max_difference": float(np.abs(got - want).max()) if got.shape == want.shape else "shape"})
+                    break
+        except Exception as e:  # noqa
+            bad("multi_time-keyword-x|exception|%s" % type(e).__name__, "derivative methods raise when the states are passed by keyword with multi_time",
+                {"exception": "%s: %s" % (type(e).__name__, str(e)[:300])})
     # ---- history: a NumPy buffer refilled in place between two calls - derivatives are those at the buffer's CURRENT rows
     if not isinstance(p, MultiOutputColumn):
         try:
@@ -532,6 +578,9 @@ def run(ctx):
         predictors.setdefault(cname, p)
         info = fd.Info(p)
         xq = fd.query_points(np.random.default_rng(cfg["data_seed"] + 5), info, X, k_rows, TIMES)
+        if xq.shape[0] < 2:         # no room at the margin for query points in this data set: nothing to compare (counted)
+            st.dist["skipped: no query points at the margin"] = st.dist.get("skipped: no query points at the margin", 0) + 1
+            continue
         cfg = dict(cfg, query_rows=xq.tolist())
         check_predictor(ctx, cfg, p, X, xq, st, info)
         key = "%s/%s/d=%d" % (cname, cfg["kernel"], cfg["d"])
@@ -552,7 +601,7 @@ def run(ctx):
         shapes[("DHessLogDet", 5, 2, 3)] = tuple(np.asarray(pf.hessian_log_determinant(xq)[0]).shape)
         infof = fd.Info(pf)
         xqf = fd.query_points(np.random.default_rng(ctx.seed + 11), infof, Xf, 3 if not ctx.thorough else 6)
-        for kcol in range(Yf.shape[1]):
+        for kcol in (range(Yf.shape[1]) if xqf.shape[0] >= 2 else ()):
             view = ColumnView(pf, kcol)
             cfgf = dict(estimator="FunctionEstimator", gp_type="full", kernel="Matern52", d=2, n=18, columns=3, column=kcol,
                         data="X = default_rng(seed+3).normal(size=(18,2)); Y = [sin x0, x1^2, x0*x1]; FunctionEstimator(gp_type='full', ls=1.0, sigma=0.1).fit(X, Y)",
